@@ -214,11 +214,11 @@ Qed.
 (* one merge-insert: result is wf again and covers exactly the old coverage plus e *)
 Lemma insert_merge_step t e :
   wf_itier t -> pos e -> stripped (ilabel e) ->
-  exists t', insert_i t e IMerge = Ok t' /\ wf_itier t' /\ iname t' = iname t
+  exists t', insert_i_core t e IMerge = Ok t' /\ wf_itier t' /\ iname t' = iname t
     /\ forall x, covered (ients t') x = covered (ients t) x || coversb e x.
 Proof.
   intros Hwf He Hle. pose proof Hwf as (Hw & Hs & Hl).
-  destruct (insert_i t e IMerge) as [t'|err] eqn:E.
+  destruct (insert_i_core t e IMerge) as [t'|err] eqn:E.
   2:{ exfalso. rewrite (insert_i_spec _ _ _ Hwf) in E. unfold insert_spec in E.
       destruct (Z.leb_spec (iend e) (istart e)); [unfold pos in He; lia|].
       destruct (filter _ (ients t)); discriminate. }
@@ -264,7 +264,8 @@ Proof.
   - exists t. simpl. split; [reflexivity|]. split; [exact Hwf|]. split; [reflexivity|].
     intro x. now rewrite orb_false_r.
   - inversion Hp; subst. inversion Hl; subst. cbn [fold_res].
-    destruct (insert_merge_step t j Hwf H1 H3) as (t1 & E1 & W1 & N1 & C1). rewrite E1. cbn [bind].
+    destruct (insert_merge_step t j Hwf H1 H3) as (t1 & E1 & W1 & N1 & C1).
+    rewrite (insert_i_stripped t j IMerge H3), E1. cbn [bind].
     destruct (IH t1 W1 H2 H4) as (t' & E & W & N & C).
     exists t'. split; [exact E|]. split; [exact W|]. split; [congruence|].
     intro x. rewrite C, C1. unfold covered at 4. cbn [existsb]. fold (covered js x). now rewrite orb_assoc.
